@@ -71,13 +71,15 @@ Proof.
   destruct (fstat call).
   - apply after_switch_tr. reflexivity.
   - ts_same.
-  - destruct (prev_deferred (scalls s) i) as [[j prev]|].
+  - cbv zeta. change (status_eqb Returned Recovered) with false. cbv iota.
+    destruct (prev_deferred (scalls s) i) as [[j prev]|].
     + apply after_switch_tr. reflexivity.
     + simpl. ts_same.
   - destruct (sfn s); [|ts_fin]. apply after_switch_tr. reflexivity.
   - destruct (find_deferred_below (scalls s) i) as [[j d]|]; [|ts_same].
     destruct (nth_error (scalls s) (S j)); [|ts_fin]. apply after_switch_tr. reflexivity.
-  - destruct (prev_deferred (scalls s) i) as [[j prev]|].
+  - cbv zeta. change (status_eqb Recovered Recovered) with true. cbv iota.
+    destruct (prev_deferred (scalls (trim s)) i) as [[j prev]|].
     + apply after_switch_tr. reflexivity.
     + simpl. ts_same.
 Qed.
@@ -352,6 +354,17 @@ Proof.
     + destruct (sfn s); cs_fin.
 Qed.
 
+(* after the trimming of a recovered frame: the next deferred call of the same function *)
+Lemma after_switch_trim_ch s c call i :
+  ch_step s (after_switch (set_calls (trim s) c) call i).
+Proof.
+  unfold after_switch. destruct (fcl call) as [f|nk].
+  - eapply CS_trim; reflexivity.
+  - destruct nk; simpl; try cs_fin.
+    + eapply CS_trim; reflexivity.
+    + destruct (sfn s); cs_fin.
+Qed.
+
 Lemma step_next_ch s i : ch_step s (step_next s i).
 Proof.
   unfold step_next.
@@ -359,14 +372,16 @@ Proof.
   destruct (fstat call) eqn:Hst.
   - apply after_switch_ch; reflexivity.
   - cs_same.
-  - destruct (prev_deferred (scalls s) i) as [[j prev]|].
+  - cbv zeta. change (status_eqb Returned Recovered) with false. cbv iota.
+    destruct (prev_deferred (scalls s) i) as [[j prev]|].
     + apply after_switch_ch; reflexivity.
     + simpl. cs_same.
   - destruct (sfn s); [|cs_fin]. apply after_switch_ch; reflexivity.
   - destruct (find_deferred_below (scalls s) i) as [[j d]|]; [|cs_same].
     destruct (nth_error (scalls s) (S j)); [|cs_fin]. apply after_switch_ch; reflexivity.
-  - destruct (prev_deferred (scalls s) i) as [[j prev]|].
-    + apply after_switch_ch; reflexivity.
+  - cbv zeta. change (status_eqb Recovered Recovered) with true. cbv iota.
+    destruct (prev_deferred (scalls (trim s)) i) as [[j prev]|].
+    + apply after_switch_trim_ch.
     + simpl. eapply CS_trim; reflexivity.
 Qed.
 
